@@ -1138,3 +1138,68 @@ Proof.
     assert (Hab : Rabs (B2R b - B2R a) <= B2R l2) by (apply Rabs_le; lra).
     unfold delta19, eta19, u32, u64 in *. nra.
 Qed.
+
+(* ---------- in the progress ---------- *)
+
+(* the distance of a finite progress in [0, 1]: fl(p * dist) = p * dist up to u64 * dist + eta64 *)
+Lemma progress_to_dist_error (lens : list F64) (p : F64) :
+  let L := Curve.dist lens in
+  fin p -> 0 <= B2R p <= 1 -> fin L -> 0 <= B2R L -> B2R L <= pw 1023 ->
+  Rabs (B2R (progress_to_dist lens p) - B2R p * B2R L) <= u64 * B2R L + eta64.
+Proof.
+  intros L Fp Hp FL HL0 HL.
+  destruct (in_unit_not_clamped _ Fp Hp) as (C0 & C1).
+  rewrite (progress_to_dist_inside lens _ C0 C1). fold L.
+  assert (MpL : Rabs (B2R p * B2R L) <= pw 1023).
+  { rewrite Rabs_pos_eq by (apply Rmult_le_pos; lra). apply Rle_trans with (1 * B2R L); [|lra].
+    apply Rmult_le_compat_r; lra. }
+  destruct (D_mul_spec p L 1023 Fp FL ltac:(zl) MpL) as (_ & _ & Rd).
+  eapply Rle_trans; [exact (rela_abs_err _ _ _ _ Rd)|].
+  rewrite Rabs_pos_eq by (apply Rmult_le_pos; lra).
+  assert (B2R p * B2R L <= B2R L) by nra. pose proof u64_pos. nra.
+Qed.
+
+(* FAITHFUL ARC-LENGTH PARAMETRISATION, IEEE, natural lengths: for finite
+   progresses pa, pb in [0, 1] the two positions are at most
+     (1 + delta19) |pb - pa| dist + (n eta19 + 2.001 u64) dist + 2.001 eta64 + rounding of the interpolations
+   apart *)
+Theorem global_lipschitz_progress_ieee (path : list Pos) (M : R) (pa pb : F64) :
+  Forall (fun p => coord_le p 20) path -> segs_ok path -> (length path <= 2 ^ 50)%nat ->
+  poly_len (map R2 path) <= pw 40 -> coords_le M path -> 0 <= M ->
+  fin pa -> fin pb -> 0 <= B2R pa <= 1 -> 0 <= B2R pb <= 1 ->
+  let lens := natural path D.zero in
+  let L := Curve.dist lens in
+  let G := (1 + delta19) * Rabs (B2R pb - B2R pa) * B2R L
+           + (INR (length path) * eta19 + 2.001 * u64) * B2R L + 2.001 * eta64 in
+  exists qa qb,
+    position_at path lens pa = Done qa /\ position_at path lens pb = Done qb /\
+    Rabs (B2R (px qa) - B2R (px qb)) <= G + 2 * E19max M /\
+    Rabs (B2R (py qa) - B2R (py qb)) <= G + 2 * E19max M /\
+    edist (R2 qa) (R2 qb) <= G + 4 * E19max M.
+Proof.
+  intros Hc Hs Hn Ht40 HM HM0 Fpa Fpb Hpa Hpb lens L G.
+  destruct (dist_bounds path Hc Hs Hn Ht40) as (FL & ZL & UL). fold lens L in FL, ZL, UL.
+  assert (UL' : B2R L <= pw 1023) by (eapply Rle_trans; [exact UL|apply bpow_le; zl]).
+  pose proof (progress_to_dist_error lens pa Fpa Hpa FL ZL UL') as Ea.
+  pose proof (progress_to_dist_error lens pb Fpb Hpb FL ZL UL') as Eb.
+  destruct (global_lipschitz_position_at_ieee path M pa pb Hc Hs Hn Ht40 HM HM0 Fpa Fpb Hpa Hpb)
+    as (qa & qb & Hqa & Hqb & Bx & By & Be).
+  fold lens L in Hqa, Hqb, Bx, By, Be, Ea, Eb.
+  exists qa, qb. split; [exact Hqa|]. split; [exact Hqb|].
+  set (a := progress_to_dist lens pa) in *. set (b := progress_to_dist lens pb) in *.
+  assert (Hab : Rabs (B2R b - B2R a) <= Rabs (B2R pb - B2R pa) * B2R L + 2 * (u64 * B2R L + eta64)).
+  { replace (B2R b - B2R a) with ((B2R b - B2R pb * B2R L) + (B2R pb - B2R pa) * B2R L + - (B2R a - B2R pa * B2R L)) by ring.
+    eapply Rle_trans; [apply Rabs_triang|]. eapply Rle_trans; [apply Rplus_le_compat_r, Rabs_triang|].
+    rewrite Rabs_Ropp, Rabs_mult, (Rabs_pos_eq (B2R L)) by exact ZL. lra. }
+  pose proof delta19_pos as Pd. pose proof u64_pos as Pu. pose proof eta64_pos as Pe.
+  assert (Q : (1 + delta19) * Rabs (B2R b - B2R a) + INR (length path) * eta19 * B2R L <= G).
+  { unfold G.
+    assert (Q1 : (1 + delta19) * Rabs (B2R b - B2R a)
+                 <= (1 + delta19) * (Rabs (B2R pb - B2R pa) * B2R L + 2 * (u64 * B2R L + eta64)))
+      by (apply Rmult_le_compat_l; lra).
+    assert (Dd : delta19 <= / 2000) by (unfold delta19, u32; lra).
+    assert (Q2 : (1 + delta19) * (2 * (u64 * B2R L + eta64)) <= 2.001 * u64 * B2R L + 2.001 * eta64).
+    { assert (0 <= u64 * B2R L) by (apply Rmult_le_pos; lra). nra. }
+    lra. }
+  split; [lra|]. split; lra.
+Qed.
